@@ -321,6 +321,9 @@ def run(R):
                         "with several partners can exceed the limit", [e.loc()])
         # aggregate result arm truncates
         ar = PR.calls_matching(ef, r"ExecutionEngine::execute_aggregate_result$")
+        if not ar and P.fn(ENG + "execute_aggregate_result") is None:
+            # the wrapper was inlined by hand: the call it wrapped
+            ar = PR.calls_matching(ef, r"aggregate_execution::AggregateExecutionEngine::execute_result$")
         cuts = [c for c in PR.calls_matching(ef, r"^alloc::vec::Vec::(truncate|drain)$") if ar and c.bb in ef.reachable_from(ar[0].bb)]
         if ar and cuts:
             problems = []
